@@ -25,7 +25,7 @@ def isWordChar (c : Char) : Bool := c == '_' || isAlpha c || isDigit c
 def isIdStart (c : Char) : Bool := c == '_' || isAlpha c
 
 /-- Python `str.strip()` / `str.isspace()` characters -/
-def isPyWs (c : Char) : Bool :=
+def isPyWsU (c : Char) : Bool :=
   let n := c.toNat
   decide ((9 ≤ n ∧ n ≤ 13) ∨ (28 ≤ n ∧ n ≤ 32) ∨ n = 0x85 ∨ n = 0xa0 ∨ n = 0x1680 ∨ (0x2000 ≤ n ∧ n ≤ 0x200a) ∨
     n = 0x2028 ∨ n = 0x2029 ∨ n = 0x202f ∨ n = 0x205f ∨ n = 0x3000)
@@ -39,7 +39,7 @@ def isJsWs (c : Char) : Bool :=
 def stripBy (p : Char → Bool) (s : Str) : Str := ((s.dropWhile p).reverse.dropWhile p).reverse
 
 /-- Python `s.strip()` -/
-def pyStripU (s : Str) : Str := stripBy isPyWs s
+def pyStripU (s : Str) : Str := stripBy isPyWsU s
 /-- rbql.js `str_strip`: `src.replace(/^ +| +$/g, '')` -/
 def jsStrStrip (s : Str) : Str := stripBy (· == ' ') s
 /-- JavaScript `s.trim()` -/
